@@ -21,6 +21,21 @@ func ZZ_C02_leaf() {
 	got := item.ToBytes()
 	rt.Assert(rt.BytesEq(got, want), "item-bytes")
 	rt.Assert(item.Size() == n, "item-size")
+	if n > 0 || kind == zzASCII {
+		// the same item obtained by filling a template, before and after the template is filled
+		// again with other values
+		tmpl, fill, zeros := zzLeafTemplate(kind, n, zzLastVals)
+		rt.Assert(len(tmpl.ToBytes()) == 0, "template:no-bytes")
+		f1 := tmpl.FillVariables(fill)
+		rt.Assert(rt.BytesEq(f1.ToBytes(), want), "filled-item-bytes")
+		f2 := tmpl.FillVariables(zeros)
+		zn := n
+		if kind == zzASCII {
+			zn = 0
+		}
+		rt.Assert(rt.BytesEq(f2.ToBytes(), zzLeafEnc(kind, zn, make([]byte, zn*zzWidth[kind]))), "zero-filled-item-bytes")
+		rt.Assert(rt.BytesEq(f1.ToBytes(), want), "filled-item-bytes-after-second-fill")
+	}
 	st, fn, wb, sid, sys := zzHeaderFields()
 	m := ast.NewHSMSDataMessage("name", st, fn, wb, zzDirection(rt.Choice("dir", 3)), item, sid, sys)
 	rt.Assert(rt.BytesEq(m.ToBytes(), zzFrame(st, fn, wb, sid, sys, want)), "message-bytes")
@@ -273,26 +288,44 @@ func ZZ_C02_boundary() {
 // n = 16,777,215 makes the message longer than 2^24 bytes, so all four message-length
 // bytes matter.
 func ZZ_C02_bigmessage() {
-	n := rt.Param("n")
-	item := ast.NewASCIINode(strings.Repeat("x", n))
+	n, parts := rt.Param("n"), rt.Param("parts")
+	var item ast.ItemNode = ast.NewASCIINode(strings.Repeat("x", n))
+	hdr := zzHeader(0o20, n)
+	itemLen := len(hdr) + n
+	if parts > 1 {
+		// a list of `parts` such items: no single item is near its limit, their sum is beyond it
+		kids := make([]interface{}, parts)
+		for i := range kids {
+			kids[i] = item
+		}
+		item = ast.NewListNode(kids...)
+		itemLen = 2 + parts*itemLen
+	}
 	st, fn, wb, sid, sys := zzHeaderFields()
 	rt.Assume(wb == 0) // one path: the size is what is examined
 	m := ast.NewHSMSDataMessage("", st, fn, wb, "H<->E", item, sid, sys)
 	b := m.ToBytes()
-	total := 14 + 1 + 3 + n
-	if n <= 255 {
-		total = 14 + 2 + n
-	} else if n <= 65535 {
-		total = 14 + 3 + n
-	}
+	total := 14 + itemLen
 	rt.Assert(len(b) == total, "big:length")
 	ml := total - 4
 	rt.Assert(b[0] == byte(ml>>24) && b[1] == byte(ml>>16) && b[2] == byte(ml>>8) && b[3] == byte(ml), "big:message-length-field")
 	rt.Assert(int(b[4])<<8|int(b[5]) == sid, "big:session-id")
-	hdr := zzHeader(0o20, n)
-	for i := range hdr {
-		rt.Assert(b[14+i] == hdr[i], "big:item-header")
+	off := 14
+	if parts > 1 {
+		rt.Assert(b[14] == 0x01 && int(b[15]) == parts, "big:list-header")
+		off = 16
 	}
-	rt.Assert(b[len(b)-1] == 'x' && b[14+len(hdr)] == 'x', "big:payload-ends")
+	for i := range hdr {
+		rt.Assert(b[off+i] == hdr[i], "big:item-header")
+	}
+	rt.Assert(b[len(b)-1] == 'x' && b[off+len(hdr)] == 'x', "big:payload-ends")
+	if rt.Param("decode") == 1 {
+		got, ok := Parse(b)
+		rt.Assert(ok, "big:decode-ok")
+		if ok {
+			rt.Assert(got.Type() == "data message", "big:decode-type")
+			rt.Assert(len(got.ToBytes()) == total, "big:decoded-message-re-encodes-to-the-same-length")
+		}
+	}
 	rt.Reach("end")
 }
